@@ -688,6 +688,9 @@ func c36cScenarios(r *vlib.Run) []c36cScenario {
 			pre: []c36Event{{"req", "-"}}, mutator: ev("addnode", "n1")},
 		{name: "addnode-suffrage", cfg: with(func(c *c36Cfg) { c.member = true }), addr: "a3", cids: []string{"-", "-"}, k: k,
 			pre: []c36Event{{"req", "-"}}, mutator: ev("addnode", "n1")},
+		// n1 leaves the consensus nodes while the suffrage state hash stays the same; the suffrage limiter is cached
+		{name: "suffrage-leave-same-hash", cfg: with(func(c *c36Cfg) { c.member = true }), addr: "a3", cids: []string{"-", "-"}, k: k,
+			pre: []c36Event{{"req", "-"}, {"addnode", "n1"}, {"req", "-"}}, mutator: ev("member", "off")},
 		{name: "node-remove", cfg: with(func(c *c36Cfg) { c.nodes = "n1" }), addr: "a3", cids: []string{"-", "-"}, k: k,
 			pre: []c36Event{{"req", "-"}, {"addnode", "n1"}}, mutator: ev("nodes", "nil")},
 		{name: "node-replace", cfg: with(func(c *c36Cfg) { c.nodes = "n1" }), addr: "a3", cids: []string{"-", "-"}, k: k,
